@@ -272,7 +272,24 @@ def np_methods(fn):
     return done
 
 
-TRANSFORMS = {"hoist": lambda fn, c: hoist_lookups(fn), "logging": lambda fn, c: add_logging(fn), "npmethod": lambda fn, c: np_methods(fn), "rename": lambda fn, c: rename_locals(fn), "rettemp": lambda fn, c: ret_temp(fn), "kwargs": lambda fn, c: to_keywords(fn, c),
+def annotate_locals(fn):
+    """`x = v` with a plain name target becomes `x: object = v` (first binding of each name only, outside loops' else etc.)."""
+    seen = set()
+    done = False
+    for node in ast.walk(fn):
+        for fld in ("body", "orelse", "finalbody"):
+            block = getattr(node, fld, None)
+            if isinstance(block, list) and block and isinstance(block[0], ast.stmt) and not isinstance(node, ast.ClassDef):
+                for i, st in enumerate(block):
+                    if isinstance(st, ast.Assign) and len(st.targets) == 1 and isinstance(st.targets[0], ast.Name) and st.targets[0].id not in seen:
+                        seen.add(st.targets[0].id)
+                        block[i] = ast.copy_location(ast.AnnAssign(target=st.targets[0], annotation=ast.Name(id="object", ctx=ast.Load()), value=st.value, simple=1), st)
+                        done = True
+    ast.fix_missing_locations(fn)
+    return done
+
+
+TRANSFORMS = {"annotate": lambda fn, c: annotate_locals(fn), "hoist": lambda fn, c: hoist_lookups(fn), "logging": lambda fn, c: add_logging(fn), "npmethod": lambda fn, c: np_methods(fn), "rename": lambda fn, c: rename_locals(fn), "rettemp": lambda fn, c: ret_temp(fn), "kwargs": lambda fn, c: to_keywords(fn, c),
               "ifswap": lambda fn, c: if_swap(fn), "cmpswap": lambda fn, c: cmp_swap(fn), "extract": lambda fn, c: extract_args(fn)}
 
 
